@@ -312,29 +312,33 @@ package thrift
 
 //@ spec (*BinaryProtocol).SkipGo
 //@   props C19 C06 C01
+//@   timeout 30        // the size invariants are the hardest queries of the suite (bit-vector sums of UF results)
 //@   ensures mono: old(p.Read) <= p.Read
-//@   ensures thorough exact: r0 == nil ==> p.Read == old(p.Read) + tsz(p.Buf, old(p.Read), fieldType)
+//@   ensures exact: r0 == nil ==> p.Read == old(p.Read) + tsz(p.Buf, old(p.Read), fieldType)
 //@   ensures progress: r0 == nil ==> p.Read >= old(p.Read) + tmin(fieldType)
+//@   unfold tsz(p.Buf, p.Read, fieldType)
+//@   unfold psz(p.Buf, p.Read+6, Type(p.Buf[p.Read]), Type(p.Buf[p.Read+1]), int(int32(be32(p.Buf, p.Read+2))))
+//@   unfold esz(p.Buf, p.Read+5, Type(p.Buf[p.Read]), int(int32(be32(p.Buf, p.Read+1))))
 //@   modifies p.Read
 //@   decreases maxDepth
 //@   loop 1
 //@     invariant mono: old(p.Read) <= p.Read
-//@     invariant thorough size: fsz(p.Buf, old(p.Read)) == (p.Read - old(p.Read)) + fsz(p.Buf, p.Read)
+//@     invariant size: fsz(p.Buf, old(p.Read)) == (p.Read - old(p.Read)) + fsz(p.Buf, p.Read)
 //@     unfold fsz(p.Buf, p.Read)
 //@     unfold tsz(p.Buf, p.Read+3, Type(p.Buf[p.Read]))
 //@     decreases len(p.Buf) - p.Read
 //@   loop 2
 //@     invariant mono: old(p.Read) <= p.Read && old(p.Read) + 6 <= p.Read
-//@     invariant thorough size: psz(p.Buf, old(p.Read)+6, kt, vt, int(sz)) == (p.Read - old(p.Read) - 6) + psz(p.Buf, p.Read, kt, vt, int(sz) - int(i))
-//@     invariant thorough hdr: kt == Type(p.Buf[old(p.Read)]) && vt == Type(p.Buf[old(p.Read)+1]) && sz == int32(be32(p.Buf, old(p.Read)+2)) && 0 <= i && i <= sz && \
+//@     invariant size: psz(p.Buf, old(p.Read)+6, kt, vt, int(sz)) == (p.Read - old(p.Read) - 6) + psz(p.Buf, p.Read, kt, vt, int(sz) - int(i))
+//@     invariant hdr: kt == Type(p.Buf[old(p.Read)]) && vt == Type(p.Buf[old(p.Read)+1]) && sz == int32(be32(p.Buf, old(p.Read)+2)) && 0 <= i && i <= sz && \
 //@         szok(ksz, kt) && szok(vsz, vt) && !(ksz > 0 && vsz > 0)
 //@     unfold psz(p.Buf, p.Read, kt, vt, int(sz) - int(i))
 //@     unfold tsz(p.Buf, p.Read, kt)
 //@     unfold tsz(p.Buf, p.Read + tsz(p.Buf, p.Read, kt), vt)
 //@   loop 3
 //@     invariant mono: old(p.Read) <= p.Read && old(p.Read) + 5 <= p.Read
-//@     invariant thorough size: esz(p.Buf, old(p.Read)+5, vt, int(sz)) == (p.Read - old(p.Read) - 5) + esz(p.Buf, p.Read, vt, int(sz) - int(i))
-//@     invariant thorough hdr: vt == Type(p.Buf[old(p.Read)]) && sz == int32(be32(p.Buf, old(p.Read)+1)) && 0 <= i && i <= sz && tfix(vt) == 0
+//@     invariant size: esz(p.Buf, old(p.Read)+5, vt, int(sz)) == (p.Read - old(p.Read) - 5) + esz(p.Buf, p.Read, vt, int(sz) - int(i))
+//@     invariant hdr: vt == Type(p.Buf[old(p.Read)]) && sz == int32(be32(p.Buf, old(p.Read)+1)) && 0 <= i && i <= sz && tfix(vt) == 0
 //@     unfold esz(p.Buf, p.Read, vt, int(sz) - int(i))
 //@     unfold tsz(p.Buf, p.Read, vt)
 
